@@ -309,7 +309,8 @@ def _case(seed: int) -> Dict[str, Any]:
 
     rng = random.Random(seed)
     nr = 1 + seed % 3
-    a = gen.gen_trace_set(seed, n_ranks=nr, steps=2 + seed % 2, n_top=2, n_streams=2)
+    # every third case: operator names that also occur as user annotations (one name under two categories)
+    a = gen.gen_trace_set(seed, n_ranks=nr, steps=2 + seed % 2, n_top=2, n_streams=2, p_dual_cat=0.5 if seed % 3 == 0 else 0.0)
     b = {rk: _variant(evs, rng) for rk, evs in a.items()}
     fails: List[Dict[str, Any]] = []
     n = 0
